@@ -151,7 +151,11 @@ def extreme_documents():
     u = lambda s: s.encode('utf-8')  # noqa: E731
     jd = lambda o: u(json.dumps(o, ensure_ascii=False))  # noqa: E731
     yd = lambda o: u(yaml.safe_dump(o, allow_unicode=True, default_flow_style=False))  # noqa: E731
-    pairs = [('x-num', num_a, num_b), ('x-str', str_a, str_b), ('x-deep', deep_a, deep_b), ('x-nonfinite', nf_a, nf_b)]
+    # whitespace-only strings (as value, key and list element, unchanged and changed) and a multi-line string with a blank line
+    blank_a = {'sp': ' ', 'tab': '\t', ' ': 'blank key', 'l': [' ', 'x', '  '], 'ml': 'a\n  \nb', 'same': '   '}
+    blank_b = {'sp': ' ', 'tab': '\t\t', ' ': 'blank key!', 'l': [' ', 'y', '  ', '\t'], 'ml': 'a\n  \nb', 'same': '   ', 'ins': ' '}
+    pairs = [('x-num', num_a, num_b), ('x-str', str_a, str_b), ('x-deep', deep_a, deep_b), ('x-nonfinite', nf_a, nf_b),
+             ('x-blank', blank_a, blank_b)]
 
     def cs(rows):
         f = io.StringIO()
@@ -188,7 +192,7 @@ def extreme_documents():
     pl_deep_a = {'d': _nest(30, [{}, []]), 'empty': {}, 'el': []}
     pl_deep_b = {'d': _nest(30, [[], {}, 1]), 'empty': [], 'el': {}}
     pl = [('x-num', pl_num_a, pl_num_b), ('x-str', pl_str_a, pl_str_b), ('x-deep', pl_deep_a, pl_deep_b),
-          ('x-nonfinite', nf_a, nf_b)]
+          ('x-nonfinite', nf_a, nf_b), ('x-blank', blank_a, blank_b)]
     # bytes (pickle protocol >= 3 keeps bytes objects; protocol 2 pickles them as _codecs.encode calls):
     # x-bytes: the bytes values are equal or inserted next to non-bytes; x-bytes-diff: two different bytes values
     by_a, by_b = {'by': b'\xff\x00by', 'l': [1]}, {'by': b'\xff\x00by', 'l': [1, b'zz', b'']}
